@@ -68,6 +68,7 @@ func workerSearch(results []interface{}, ctrChanged chan<- struct{}, f func(int)
 			return
 		}
 		results[i] = res
+		yield("ws:after-store")
 		atomic.AddInt64(ctr, -1)
 		yield("ws:before-send")
 		ctrChanged <- struct{}{}
